@@ -402,6 +402,13 @@ func TestAuthzPersist(t *testing.T) {
 			t.Fatal(err)
 		}
 		core := security.NewServiceCore(env)
+		nodeKey := func(c *security.ServiceCore) string {
+			if c.NodeInfo == nil || len(c.NodeInfo.KeyPairs) == 0 || c.NodeInfo.KeyPairs[0].PublicKey == nil {
+				return "none"
+			}
+			return c.NodeInfo.NodeID + "/" + c.NodeInfo.KeyPairs[0].PublicKey.N.String()[:24]
+		}
+		firstNode := nodeKey(core)
 		for _, st := range c.Steps {
 			switch st.A {
 			case "register":
@@ -417,6 +424,11 @@ func TestAuthzPersist(t *testing.T) {
 			}
 		}
 		r := Result{Idx: idx, Adapter: "security"}
+		// the node keeps its identity (node id and key pair) across restarts
+		sum.Checks++
+		if got := nodeKey(core); got != firstNode {
+			r.Divs = append(r.Divs, Divergence{Kind: "node-identity", Adapter: "security", Query: c.Steps, Expected: firstNode, Actual: got})
+		}
 		// registered clients with the key they registered last
 		var gotReg, wantReg []string
 		for k, ci := range core.GetClients() {
